@@ -30,11 +30,15 @@ def coded_value(U, letters):
     return lambda lab: f(lab)
 
 
-def apply_faults(U, letters, layout, faults):
+def apply_faults(U, letters, layout, faults, infs=()):
     """-> (records, render kwargs, structural_error: bool, notes)"""
     wide = layout.get("wide")
     vf = coded_value(U, letters)
     recs = frames.full_records(U, letters, vf)
+    for pos, sign in infs:
+        # infinite entries are values like any other (not a fault): they must arrive unchanged under their labels
+        k = pos % len(recs)
+        recs[k] = (recs[k][0], float("inf") if sign > 0 else float("-inf"))
     items = build.uitems(U)
     kw = {"extra_columns": {}, "dropped_dim_columns": [], "wide_header_map": {}}
     lay = dict(layout)
@@ -220,7 +224,8 @@ def fault_classes(desc):
 
 def run_fault_case(desc, weak_only=False):
     U, letters, layout = desc["universe"], desc["letters"], desc["layout"]
-    records, lay, kw, structural, unasserted = apply_faults(U, letters, layout, desc["faults"])
+    infs = [tuple(i) for i in desc.get("infs", [])] if desc.get("entry") != "excel" else []
+    records, lay, kw, structural, unasserted = apply_faults(U, letters, layout, desc["faults"], infs)
     if not records:
         raise Discard("empty frame")
     df = frames.render(U, letters, records, lay, **kw)
@@ -258,7 +263,7 @@ def run_fault_case(desc, weak_only=False):
         res, err = call_import(desc, U, letters, df, tmp)
     if not (df.equals(df_before) and list(df.columns) == list(df_before.columns) and df.index.equals(df_before.index)):
         raise Violation("import-modified-input-frame", f"columns {list(df_before.columns)} -> {list(df.columns)}")
-    cl = fault_classes(desc) + [f"expect:{verdict}"] + (["repeated-row-labels"] if desc.get("dup_index") else []) + (["no-header-line"] if noheader else [])
+    cl = fault_classes(desc) + [f"expect:{verdict}"] + (["has-infinite-entries"] if infs else []) + (["repeated-row-labels"] if desc.get("dup_index") else []) + (["no-header-line"] if noheader else [])
     if noheader and any(f["kind"] == "dup_row" and f["pos"] % max(1, len(records)) == 0 for f in desc["faults"]):
         cl.append("no-header-line:first-row-duplicated")
     ctx = f"faults {[(f['kind'], f['pos']) for f in desc['faults']]} flags missing={am} extra={ae} entry={desc['entry']} layout wide={layout.get('wide')} index={layout.get('index')} dims {letters}"
@@ -354,7 +359,9 @@ def fault_cases(draw, max_faults=2):
             "dup_index": False,
             "noheader": True,
         }
+    infs = [[draw(st.integers(0, 40)), draw(st.sampled_from([1, -1, -1]))] for _ in range(draw(st.sampled_from([0, 0, 0, 1, 2])))]
     return {
+        "infs": infs,
         "universe": U,
         "letters": letters,
         "layout": layout,
